@@ -183,5 +183,5 @@ for _k, (_a, _b, _c) in _T.items():
     PROPS[_k]["level_text"], PROPS[_k]["level_note"], PROPS[_k]["technique"] = _a, _b, _c
 
 # properties whose theorem module is not complete yet are not claimed
-for _k in ("C02", "C08", "C09", "C05", "C04", "C15", "C16"):  # unclaimed
+for _k in ("C02", "C08", "C09", "C04", "C15", "C16"):  # unclaimed
     PROPS[_k]["unclaimed"] = True
